@@ -1634,6 +1634,7 @@ impl ObjectWrite for Action {
         match self {
             Action::Goto(dest) => {
                 let mut dict = Dictionary::new();
+                dict.insert("S", Primitive::Name("GoTo".into()));
                 dict.insert("D", dest.to_primitive(update)?);
                 Ok(Primitive::Dictionary(dict))
             }
